@@ -13,7 +13,7 @@ IMPORTS = "Base Atomic CorrC10"
 CASE_TYPE = "case_C10"
 MISMATCHES = "mismatches_C10"
 VIOLATIONS = "violations_C10"
-KNOWN = None
+KNOWN = "known_C10"
 SHARD = 40
 RULE = ("scenarios: job document / project document writes (old document absent, {}, small, > 8 KiB and > 64 KiB), "
         "flushes of signac.buffered() blocks over 1-3 jobs (also forced flushes by a small capacity), buffered blocks that "
@@ -246,7 +246,13 @@ def build(desc, root):
                 dj = project.open_job(sj.statepoint()).init()
                 if desc["dst"] == "with-doc":
                     _write_plain(os.path.join(dj.path, "signac_job_document.json"), {"dst": i, "old": True})
-        mode = {"bykey": DocSync.ByKey(), "update": DocSync.update, "copy": DocSync.COPY, "no_sync": DocSync.NO_SYNC}[desc["doc_sync"]]
+        def raising_doc_sync(src_doc, dst_doc):
+            # a doc_sync that modifies the destination and then fails: sync restores the document from its `<doc>~` copy
+            dst_doc["partial"] = [1, 2, 3]
+            raise RuntimeError("doc_sync failed")
+
+        mode = {"bykey": DocSync.ByKey(), "update": DocSync.update, "copy": DocSync.COPY, "no_sync": DocSync.NO_SYNC,
+                "raising": raising_doc_sync}[desc["doc_sync"]]
 
         def act(tracing):
             p2 = signac.get_project(root)
@@ -255,7 +261,11 @@ def build(desc, root):
                 api = desc["api"]
                 if api == "job":
                     for sj in s2:
-                        p2.open_job(sj.statepoint()).init().sync(sj, strategy=FileSync.always, doc_sync=mode)
+                        try:
+                            p2.open_job(sj.statepoint()).init().sync(sj, strategy=FileSync.always, doc_sync=mode)
+                        except RuntimeError:
+                            if desc["doc_sync"] != "raising":
+                                raise
                 elif api == "project":
                     p2.sync(s2, strategy=FileSync.always, doc_sync=mode)
                 elif api == "clone":
@@ -546,7 +556,9 @@ def run_scenario(desc, work):
         def only_side_file(o):
             # metadata / removal of a side file under a temp name (never of the document or cache file itself)
             names = [p for p in (o.path, o.path2, o.cur) if p is not None]
-            return o.op in ("utime", "chmod", "unlink") and not any(os.path.basename(p) in DOC_NAMES for p in names)
+            if o.op in ("utime", "chmod"):
+                return True                      # mode / time stamps only, the content is not touched
+            return o.op == "unlink" and not any(os.path.basename(p) in DOC_NAMES for p in names)
         for n, o in enumerate(muts):
             if n not in covered and not only_side_file(o) and (doc_related(o.path) or doc_related(o.path2) or doc_related(o.cur)):
                 broken = broken + ["entry outside every write episode: " + o.brief()]
@@ -644,7 +656,12 @@ def run_scenario(desc, work):
                     # the protocol's own temp file (e.g. a stale cache~) is name 1, any other side file (sync's
                     # roll-back copy <doc>~) is just another name
                     old_names.append((1 if m.get(os.path.join(d, e)) == 1 else 2, [2]))
-            cases.append(emit(desc, site, thr_model, old_names, chunks, None, steps, crash, rd, final,
+            site_ep = site
+            if desc["kind"] == "sync" and desc["doc_sync"] == "copy":
+                site_ep = "SSyncCopy"            # known finding C10 tag 1: the document is copied as an ordinary file
+            elif desc["kind"] == "sync" and desc["doc_sync"] == "raising" and (a, b, t) == max(e for e in eps if e[2] == t):
+                site_ep = "SRollback"            # ... and restored in place after the failing doc_sync (last episode)
+            cases.append(emit(desc, site_ep, thr_model, old_names, chunks, None, steps, crash, rd, final,
                               {"episode": [a, b, norm_tmp(t)], "trace": [o.brief() for o in ops],
                                "broken": broken + ["not consumed by the model translation: " + u for u in unconsumed],
                                "old_len": None if old_b is None else len(old_b), "new_len": len(new_b or b"")},
@@ -764,6 +781,12 @@ def gen_inputs(tier, rng):
                         continue
                     descs.append({"kind": "sync", "threads": thr, "api": api, "doc_sync": ds, "dst": dst,
                                   "project_doc": api == "project", "pad": rng.choice([10, 9000])})
+            # known finding C10 tag 1: doc_sync=COPY onto an existing destination document
+            descs.append({"kind": "sync", "threads": thr, "api": api, "doc_sync": "copy", "dst": "with-doc",
+                          "project_doc": False, "pad": rng.choice([10, 9000])})
+        # ... and the roll-back after a raising doc_sync
+        descs.append({"kind": "sync", "threads": thr, "api": "job", "doc_sync": "raising", "dst": "with-doc",
+                      "project_doc": False, "pad": rng.choice([10, 9000])})
         for wc in (False, True):
             for old in ("absent", "small"):
                 descs.append({"kind": "raw", "threads": thr, "write_concern": wc, "old": old, "new": "large"})
